@@ -266,7 +266,10 @@ def _init_worker(modname):
 def _eval_one(desc):
     try:
         ev = _MOD.evaluate(desc)
-        impl = [x if isinstance(x, (str, list, tuple)) else ("@judge", i) for i, x in enumerate(ev.impl)]
+        # a callable is a judge (re-evaluated in the parent); anything else that is not text (None, a number: the
+        # implementation returned a value of an unexpected type) is compared through its repr and so disagrees
+        impl = [x if isinstance(x, (str, list, tuple)) else (("@judge", i) if callable(x) else "<%s>" % repr(x))
+                for i, x in enumerate(ev.impl)]
         return {"requests": ev.requests, "impl": impl, "oracle": ev.oracle, "key": ev.key, "info": ev.info}
     except Exception as e:  # harness failure, not a verdict
         return {"harness_error": "%s: %s\n%s" % (type(e).__name__, e, traceback.format_exc()[-1500:])}
@@ -341,9 +344,12 @@ def approx_judge(im, model_out):
 
 def judge(mod, desc, idx, model_out):
     """re-evaluate a case in-process to apply a callable judge (float tolerance)"""
-    ev = mod.evaluate(desc)
-    f = ev.impl[idx]
-    return f(model_out)
+    try:
+        ev = mod.evaluate(desc)
+        f = ev.impl[idx]
+        return f(model_out)
+    except Exception as e:  # the observation cannot be judged: that is a disagreement, not a crash of the run
+        return "unjudgeable: %s: %s" % (type(e).__name__, e)
 
 
 # ------------------------------------------------------------------ known findings
